@@ -510,7 +510,8 @@ def _e2e(group):
         elif group in ('math', 'formal'):
             from ..bounded.mux import check_c12
             r = check_c12({'tier': 'quick', 'seed': 0})
-            found = r['failures'][0] if r['failures'] else None
+            from ..bounded.mux import first_new_failure
+            found = first_new_failure(r)
         elif group == 'misc':
             got = run_mux([1, 2, 3], rs.data.to_list())
             if got != [[1, 2, 3]]: found = {'pipeline': 'to_list', 'input': [1, 2, 3], 'expected': [[1, 2, 3]], 'got': got}
